@@ -102,6 +102,13 @@ CHECKS = {
             "That the engine is a product of per-process machines behind a write-through cache is exactly what the projections test; thread-level atomicity is outside the "
             "model. Workloads are schedule-independent by construction (conditions read start inputs, every act writes names of its own) because a process whose parallel "
             "branches race on one variable has no single solo outcome to compare with.", "5 C13"),
+    "C16": ("Lean 4 K3 theorems on the expansion (one group per element, every act of group k carries index k and element k, list order), on the abstract scheduling of "
+            "groups (parallel opens all, a sequence opens k+1 only when 0..k are done, never two groups in progress, complete iff all done, empty list completes, "
+            "incomplete => some group active) and on hook dispatch (a hook fires once per event of its class, never otherwise; count over any event list), K1 tables "
+            "translated from parallel/sequence/block/dispatch_acts/Push + monitors on generated runs: $index/$value multiset, order and round of the generated acts, "
+            "generator completion after its descendants, hook messages against lifecycle events read off the transitions, tasks created by a push",
+            "That the engine's generators and hooks refine these models is decided by the monitors. Which event classes reach which hooks is the engine's own table "
+            "(run_hooks), so a hook `on: before_update` attached to an act has no matching event. Hooks that strand their task are a C01 finding.", "5 C16"),
     "C17": ("Lean 4 K3 theorems on the row model (removeProc deletes exactly the task and process rows of that pid and no message; removals commute; removal iff "
             "!keep_processes from the translated rule; actions on a removed process are refused first; rm_model removes exactly its events) + monitor on the rows of "
             "all collections after every operation of interleaved workloads, both keep settings, both back ends",
